@@ -180,6 +180,8 @@ def run (ctx):
     if app:
       c = [c for c in q.node_calls(app[0]) if call_name(c) == 'append'][0]
       ctx.ob('R-AGREE', hp, "the message itself is buffered, at the tail", norm(c.args[0]) == hp.params[-1], norm(c), hp, 'D3')
+  from . import c17 as c17_
+  c17_.early_port_status_kept(ctx, repo, hs, 'D3')
   # ---- D4 ConnectionDown -----------------------------------------------------------------------
   g = q.cfg_of(disc)
   dn = [q.enclosing_stmt_node(g, c) for f, c in downs if f is disc]
